@@ -368,6 +368,8 @@ pub fn run(tier: Tier) -> Report {
             };
             collision_family(kb, kw, &mut |g| push_all(g));
             completer_family(kc, &mut |g| push_all(g));
+            crate::fam::kind_twins(&mut |g| push_all(g));
+            crate::fam::fallback_only_words(&mut |g| push_all(g));
             crate::fam::single_call(crate::fam::v0(), k, &mut |g| push_all(g));
         },
         || Acc { samples: Some(Samples::new(3)), ..Default::default() },
